@@ -104,9 +104,20 @@ def check(an, rep, tier):
                     vstores.append(node)
                 elif isinstance(node.value, ast.Constant):
                     others.append(node)
+        from ..rules_formula import returned_name
+        res = returned_name(fn.node)
+
+        def into_last_core(t):
+            # <result>[-1][...] = v
+            b = t.value if isinstance(t, ast.Subscript) else None
+            return isinstance(b, ast.Subscript) and \
+                isinstance(b.value, ast.Name) and b.value.id == res and \
+                isinstance(b.slice, ast.UnaryOp) and \
+                isinstance(b.slice.op, ast.USub) and \
+                isinstance(b.slice.operand, ast.Constant) and \
+                b.slice.operand.value == 1
         ok = len(vstores) == 1 and all(o.value.value == 1. for o in others) \
-            and paths.src(mod, vstores[0].targets[0]).replace(' ', ''
-                                                              ).startswith('Y[-1]')
+            and into_last_core(vstores[0].targets[0])
         rep.add('U-deg', q, 'v stored into exactly one (the last) core, 1 '
                 'elsewhere', 'ok' if ok else 'violation',
                 '' if ok else 'stores of v: %s ; other literals: %s'
@@ -154,11 +165,36 @@ def check(an, rep, tier):
          isinstance(n.value, ast.Constant) and n.value.value == 0. and
          isinstance(n.targets[0], ast.Subscript)]
     ok = bool(z)
-    for s in z:
-        gs = [(paths.src(mod, t).replace(' ', ''), p)
-              for t, p in paths.guards_of(fn.node, s)]
-        ok = ok and any(p and 'i_zero[k]!=i_non_zero[k]' in t and
-                        'i_non_zeroisNone' in t for t, p in gs)
+    prot = 'i_non_zero'                     # documented parameter
+    for s_ in z:
+        tgt = s_.targets[0]
+        # <cores>[k][0, E, 0] = 0 : E is the zeroed position of core k
+        E = kx = None
+        if isinstance(tgt.slice, ast.Tuple) and len(tgt.slice.elts) == 3 and \
+                isinstance(tgt.value, ast.Subscript):
+            E, kx = tgt.slice.elts[1], tgt.value.slice
+        good = False
+        if E is not None:
+            dE = ast.dump(E)
+            want_prot = ast.dump(ast.Subscript(
+                value=ast.Name(id=prot, ctx=ast.Load()), slice=kx,
+                ctx=ast.Load()))
+            for t, pol in paths.guards_of(fn.node, s_):
+                if not (pol and isinstance(t, ast.BoolOp) and
+                        isinstance(t.op, ast.Or)):
+                    continue
+                none_ok = differs = False
+                for v_ in t.values:
+                    for l, oc, r, ln, rn in paths.cmp_facts([(v_, True)]):
+                        if oc is ast.Is and isinstance(ln, ast.Name) and \
+                                ln.id == prot and \
+                                isinstance(rn, ast.Constant) and \
+                                rn.value is None:
+                            none_ok = True
+                        if oc is ast.NotEq and l == dE and r == want_prot:
+                            differs = True
+                good = good or (none_ok and differs)
+        ok = ok and good
     rep.add('P-zero', 'tensors.const', 'zero entry stored only where the '
             'zero index differs from the protected index',
             'ok' if ok else 'violation',
